@@ -55,7 +55,7 @@ class PyMachine:
         from pce500.scheduler import TimerScheduler
         from sc62015.pysc62015.emulator import RegisterName
         self.RN = RegisterName
-        emu = PCE500Emulator(save_lcd_on_exit=False)
+        emu = PCE500Emulator(save_lcd_on_exit=False, **({"timer_scale": cfg["timer_scale"]} if cfg.get("timer_scale") else {}))
         rom = bytearray(_ROM_TEMPLATE)
         for addr, data in cfg["rom"].items():
             rom[addr - ROM_BASE: addr - ROM_BASE + len(data)] = data
